@@ -21,7 +21,7 @@ from sfv.framework import Ctx, Property
 from sfv.rt import stepdrive as sd
 from sfv.rt.loop_safe import run_controlled
 from sfv.rt.sfctx import make_context
-from sfv.translate import loopguards
+from sfv.translate import loopguards, stepguards
 
 COUNTS = [0, 1, 2, 9, 10, 11, 12, 15]
 STATUSES = ["COMPLETED", "SKIPPED", "FAILED", "CANCELLED", "RECOVERED"]
@@ -193,7 +193,7 @@ class C06(Property):
     lean_targets = ["SFV.Props.C06", "SFV.Model.Proto"]
     props_files = ["SFV/Props/C06.lean"]
     drivers = ["Drivers/C06.lean"]
-    translators = [loopguards.generate]
+    translators = [stepguards.generate, loopguards.generate]
     quick_budget_s = 300
     rule = ("REAL CWLLoopOutputAllStep / CWLLoopOutputLastStep wired with real Ports (in-memory context): 1..4 loop instances (scatter "
             "elements 0.0, 0.9, 0.10, … or the plain instance 0) with iteration counts 0..15 (always 0,1,9,10,11,12), body outputs p.i and "
